@@ -27,7 +27,7 @@ QUICK = []
 for _x in EXITS:
     QUICK += [("S2r", cfg(_x), 1, "EDIT"), ("S1", cfg(_x, "desc"), 1, "FULL")]
 QUICK += [("S1", cfg("save_as"), 1, "FULL"), ("S2r", cfg("save_as"), 2, "DELCORE"), ("S2r", cfg("save_as", "desc"), 1, "FULL"),
-          ("S1r", cfg("raise"), 2, "EDIT"), ("S0", cfg("refusal"), 3, "FULL"), ("S2", cfg("fetch_r", policy="drop"), 1, "FULL")]
+          ("S1r", cfg("raise"), 2, "DELCORE"), ("S0", cfg("refusal"), 3, "FULL"), ("S2", cfg("fetch_r", policy="drop"), 1, "FULL")]
 THOROUGH = []
 for _x in EXITS:
     THOROUGH += [("S2r", cfg(_x), 2, "EDIT"), ("S1", cfg(_x, "desc"), 2, "FULL"), ("S1r", cfg(_x, "asc", "drop"), 1, "FULL"),
